@@ -139,7 +139,7 @@ def right_nested_def(name: str, ty: str, items: list, chunk: int = 32) -> str:
 def gen_formatter():
     from bs4.formatter import Formatter, HTMLFormatter, XMLFormatter
     t = HEADER + "import BSModel.Model.Formatter\nnamespace BS.Gen\nopen BS.Formatter\n"
-    for nm, cls in (("htmlRegistry", HTMLFormatter), ("xmlRegistry", XMLFormatter)):
+    for nm, cls in (("fmtHtmlRegistry", HTMLFormatter), ("fmtXmlRegistry", XMLFormatter)):
         reg = cls.REGISTRY
         keys = sorted(reg, key=lambda k: (k is not None, k or ""))
         t += f"/-- `{cls.__name__}.REGISTRY` (keys: {', '.join(repr(k) for k in keys)}); every value is an instance of {cls.__name__}: "
